@@ -76,6 +76,7 @@ def generate(seed, tier="quick"):
 
 
 def execute(case, ctx):
+    ctx.persistent = True  # plugin sessions of this history share one directory incl. __pycache__ (logical clock for mtimes, see sim.sync_tree)
     import black
 
     prog, opts = case["program"], case["black"]
